@@ -2286,7 +2286,6 @@ def convert_mean_to_depthwise_conv(op, arch, nng):
         max_height = 64
         inp, axis = op.inputs
         dims = len(inp.shape)
-        dims_ofm = len(op.ofm.shape)
         ofmq = op.ofm.quantization
         ifmq = op.ifm.quantization
 
@@ -2297,14 +2296,9 @@ def convert_mean_to_depthwise_conv(op, arch, nng):
             reduce_axis = [True if i in axis.values else False for i in range(dims)]
 
         ifm_shape = inp.shape.copy()
-        intermediate_shape = op.ofm.shape.copy()
-
-        # Fix intermediate_shape when keep_dims is false
-        # e.g. IFM=1xHxWxC axis=2 OFM=1xHxC, the intermediate_shape should be 1xHx1xC
-        if dims_ofm < dims:
-            for i in range(dims):
-                if reduce_axis[i]:
-                    intermediate_shape.insert(i, 1)
+        # The shape of the result with the reduced dimensions kept, e.g. IFM=1xHxWxC axis=2 gives 1xHx1xC. It is taken
+        # from the IFM and the axes because the OFM tensor may carry the shape of a bypassed reshape
+        intermediate_shape = [1 if reduce_axis[i] else ifm_shape[i] for i in range(dims)]
 
         # Reshape to 4D
         reduce_axis = full_shape(4, reduce_axis, False)
